@@ -411,7 +411,7 @@ def replay(obj):
     if not sc:
         print("no scenario in replay file")
         return 2
-    run = Run(obj["property"], "quick", 0)
+    run = Run(obj["property"], "replay", 0)
     binp = go_test_build("./sess/", "sess.test")
     traces = run_driver(run, binp, [sc], "replay")
     rej = validate(run, traces)
